@@ -69,7 +69,7 @@ type vscRoot struct {
 
 type vscField struct {
 	Name, Go, Kind, Card, Target, Oneof string
-	NS, Blob, SA                       bool
+	NS, Blob, SA                        bool
 }
 
 func vscServiceRoots(t *testing.T) []vscRoot {
